@@ -12,12 +12,13 @@
     (IsoProofs.dynamics_collapse_rxn, used again by C16); they are stated here over Z. *)
 From Coq Require Import List ZArith NArith Bool Arith Permutation.
 From MxlBase Require Import ListX.
-From Label Require Import LModel Iso Linear GenLabelFacts Algebra IsoProofs IsoInitProofs IsoPropsZ.
+From Label Require Import LModel Iso Linear GenLabelFacts Algebra IsoProofs IsoInitProofs IsoPropsZ IsoWhole.
 Import ListNotations.
 
 Theorem C05_facts_pinned :
   f_iso_dir gen_label_facts = IsoDocumented /\ f_ext_bit gen_label_facts = Some true /\
-  f_short gen_label_facts = ShortLt0 /\ f_repl gen_label_facts = ReplDict /\ f_iso_helpers gen_label_facts = true.
+  f_short gen_label_facts = ShortLt0 /\ f_repl gen_label_facts = ReplDict /\ f_iso_helpers gen_label_facts = true /\
+  f_init_name gen_label_facts = InitIsoName.
 Proof. vm_compute. repeat split. Qed.
 Print Assumptions C05_facts_pinned.
 
@@ -99,19 +100,41 @@ Theorem C05_short_map_rejected :
     length lmap < total (labels_per lv (subs_of (r_stoich r))) ->
     create_iso_rxns (ext_bit_of gen_label_facts) lv r lmap = Err ErrValue
     /\ (In r (b_rxns bm) -> getN (r_name r) lmaps = Some lmap ->
-        exists e, build_iso (ext_bit_of gen_label_facts) lv lmaps init bm = Err e).
+        exists e, build_iso (ext_bit_of gen_label_facts) (f_init_name gen_label_facts) lv lmaps init bm = Err e).
 Proof.
   exact (fun lv lmaps init bm r lmap H =>
            conj (short_map_rejected true lv r lmap H)
-                (fun Hin Hm => build_short_map_rejected true lv lmaps init bm r lmap Hin Hm H)).
+                (fun Hin Hm => build_short_map_rejected true InitIsoName lv lmaps init bm r lmap Hin Hm H)).
 Qed.
 Print Assumptions C05_short_map_rejected.
 
-(** total initial amount per compound is preserved and the label sits where requested.
-    FULL statement (all label counts): false of the code, see C05_zero_label_initial_refuted.
-    Proved under the guard `0 < n \/ no initial label requested for c`; positions outside 0..n-1 are
-    ignored by [init_suffix], so no guard on the positions is needed. *)
-Theorem C05_totals_preserved_partial :
+(** total initial amount per compound is preserved and the label sits where requested -- for ALL label counts
+    (0 included), all requested positions (positions outside 0..n-1 are ignored by [init_suffix]).
+    Stated for the regenerated naming fact: type-checks only while /repo names the receiving variable by its
+    isotopomer name (repair fixes/C05-zero-label-initial.diff). *)
+Theorem C05_totals_preserved :
+  forall (lv : label_vars) (init : init_labels) (bvars : list (N * Z)) (c : N) (v : Z) (n : nat),
+    NoDup (map fst bvars) ->
+    NoDup (map fst lv) ->
+    In (c, v) bvars ->
+    getN c lv = Some n ->
+    let target := match getN c init with
+                  | None => repeat false n
+                  | Some il => init_suffix n (positions_of il)
+                  end in
+    (forall bits, length bits = n ->
+       getL (iso_name c bits) (build_vars (f_init_name gen_label_facts) lv init bvars)
+       = Some (if list_eq_dec Bool.bool_dec bits target then v else 0%Z))
+    /\ sumZ (map (fun bits => match getL (iso_name c bits) (build_vars (f_init_name gen_label_facts) lv init bvars) with Some x => x | None => 0%Z end)
+                 (all_patterns n)) = v
+    /\ length target = n.
+Proof. exact totals_preserved_full. Qed.
+Print Assumptions C05_totals_preserved.
+
+(** regression witnesses for the PRE-REPAIR naming (variables[f"{k}__" + pattern], fact value InitRawSuffix):
+    with that fact the statement only holds under the guard `0 < n \/ no initial label requested for c`, and
+    fails for label_variables = {A: 0}, initial_labels = {A: []} (the amount lands in the stray variable "A__"). *)
+Theorem C05_totals_preserved_prefix_partial :
   forall (lv : label_vars) (init : init_labels) (bvars : list (N * Z)) (c : N) (v : Z) (n : nat),
     NoDup (map fst bvars) ->
     NoDup (map fst lv) ->
@@ -123,21 +146,21 @@ Theorem C05_totals_preserved_partial :
                   | Some il => init_suffix n (positions_of il)
                   end in
     (forall bits, length bits = n ->
-       getL (iso_name c bits) (build_vars lv init bvars)
+       getL (iso_name c bits) (build_vars InitRawSuffix lv init bvars)
        = Some (if list_eq_dec Bool.bool_dec bits target then v else 0%Z))
-    /\ sumZ (map (fun bits => match getL (iso_name c bits) (build_vars lv init bvars) with Some x => x | None => 0%Z end)
+    /\ sumZ (map (fun bits => match getL (iso_name c bits) (build_vars InitRawSuffix lv init bvars) with Some x => x | None => 0%Z end)
                  (all_patterns n)) = v
     /\ length target = n.
-Proof. exact totals_preserved. Qed.
-Print Assumptions C05_totals_preserved_partial.
+Proof. exact totals_preserved_raw. Qed.
+Print Assumptions C05_totals_preserved_prefix_partial.
 
-Theorem C05_zero_label_initial_refuted :
+Theorem C05_zero_label_initial_prefix_refuted :
   exists (lv : label_vars) (init : init_labels) (bvars : list (N * Z)) (c : N) (v : Z) (n : nat),
     NoDup (map fst bvars) /\ NoDup (map fst lv) /\ In (c, v) bvars /\ getN c lv = Some n /\
-    sumZ (map (fun bits => match getL (iso_name c bits) (build_vars lv init bvars) with Some x => x | None => 0%Z end)
+    sumZ (map (fun bits => match getL (iso_name c bits) (build_vars InitRawSuffix lv init bvars) with Some x => x | None => 0%Z end)
               (all_patterns n)) <> v.
 Proof. exact zero_label_initial_refuted. Qed.
-Print Assumptions C05_zero_label_initial_refuted.
+Print Assumptions C05_zero_label_initial_prefix_refuted.
 
 (** dynamics: for a mapped mass-action reaction (rate = product of its arguments: every substrate
     compound once, the remaining arguments unlabelled constants) the derivatives of the isotopomers of
@@ -158,6 +181,26 @@ Theorem C05_dynamics_collapse_partial :
        * prodZ (map (totalZ lv env) (r_args r)))%Z.
 Proof. exact dynamics_collapse_rxn_Z. Qed.
 Print Assumptions C05_dynamics_collapse_partial.
+
+(** the same for the whole generated network: over ALL mapped mass-action reactions together the summed
+    derivatives of c's isotopomers equal the base model's derivative of c (sum over the reactions of
+    coefficient * rate, the sum Model._get_right_hand_side computes) evaluated at the isotopomer totals,
+    at EVERY state.  Same guard per reaction. *)
+Theorem C05_dynamics_collapse_model_partial :
+  forall (lv : label_vars) (rms : list (brxn * list Z)) (env : lname -> Z) (irs : list (list lrxn)) (c : N),
+    Forall (fun rm =>
+              let r := fst rm in
+              let bs := subs_of (r_stoich r) in let bp := prods_of (r_stoich r) in
+              exists extra : list N,
+                r_fn r = FProd /\ Permutation (r_args r) (bs ++ extra) /\ NoDup (map fst (r_stoich r)) /\ NoDup bs /\
+                (forall a, In a extra -> ~ In a bs /\ ~ In a bp /\ nlab lv a = O) /\
+                total (labels_per lv bp) <= length (snd rm)) rms ->
+    collect (map (fun rm => create_iso_rxns (ext_bit_of gen_label_facts) lv (fst rm) (snd rm)) rms) = Ok irs ->
+    sumZ (map (fun bits => derivZ env (concat irs) (iso_name c bits)) (all_patterns (nlab lv c)))
+    = sumZ (map (fun rm => ((match getN c (r_stoich (fst rm)) with Some v => v | None => 0 end)
+                            * prodZ (map (totalZ lv env) (r_args (fst rm))))%Z) rms).
+Proof. exact dynamics_collapse_model_Z. Qed.
+Print Assumptions C05_dynamics_collapse_model_partial.
 
 Theorem C05_homodimer_refuted :
   exists (lv : label_vars) (r : brxn) (lmap : list Z) (env : lname -> Z) (extra : list N) (c : N) (rxns : list lrxn),
